@@ -786,7 +786,23 @@ pub fn op_enc2(args: &[&str]) -> String {
     let mut sink2 = PreOrderMemOutboard { root: ob.root, tree, data: vec![0u8; tree.outboard_size() as usize] };
     let r2 = block_on(fsm::decode_ranges(&e1[..], q2.clone(), &mut target2, &mut sink2));
     let fin = |r: Result<(), bao_tree::io::DecodeError>| r.map(|_| "Done".to_string()).unwrap_or_else(|e| dec_err(&e));
-    format!("{} {} {} {}", dig(&e1), dig(&e2), fin(r), fin(r2))
+    // every byte encoder on both queries: all eight encodings must be the same bytes
+    let mut same = String::new();
+    for q in [&q1, &q2] {
+        let mut o = Vec::new();
+        let r = sync::encode_ranges_validated(&data[..], &ob, q, &mut o);
+        same.push_str(b01(r.is_ok() && o == e1));
+        let mut o = Vec::new();
+        let r = sync::encode_ranges(&data[..], &ob, q, &mut o);
+        same.push_str(b01(r.is_ok() && o == e1));
+        let mut o = Vec::new();
+        let r = block_on(fsm::encode_ranges_validated(Bytes::from(data.clone()), &mut ob.clone(), q, &mut o));
+        same.push_str(b01(r.is_ok() && o == e1));
+        let mut o = Vec::new();
+        let r = block_on(fsm::encode_ranges(Bytes::from(data.clone()), &mut ob.clone(), q, &mut o));
+        same.push_str(b01(r.is_ok() && o == e1));
+    }
+    format!("{} {} {} {} {}", dig(&e1), dig(&e2), fin(r), fin(r2), same)
 }
 
 /// extended corruption: `d<pos>^x`, `o<pos>^x`, `r<pos>^x` (root), `Zd<a>:<len>` / `Zo<a>:<len>` (zero a region)
